@@ -176,9 +176,16 @@ class GenericCallAdapter(Adapter):
                 )
 
         if len(old_node.args) < len(new_args):
+            old_args, _ = self.arguments(old_value)
             for insert_pos, value in list(enumerate(new_args))[len(old_node.args) :]:
+                # the argument is only written explicit if its value has not changed:
+                # `defaultdict(list)` -> `defaultdict(list, {})`
+                unchanged = (
+                    insert_pos < len(old_args)
+                    and old_args[insert_pos].value == value.value
+                )
                 yield CallArg(
-                    flag="fix",
+                    flag="update" if unchanged else "fix",
                     file=self.context.file._source,
                     node=old_node,
                     arg_pos=insert_pos,
